@@ -73,7 +73,8 @@ def _random_blocks(rng, nx, n_stretch, n_match):
 
 
 def make_case(rng, double=False, nx=None, nt=None, span=None, n_baths=None, n_stretch=None, nta=0, n_match=0,
-              noise=None, var_kind=None, irregular=None, shuffle=True, j_config=None, layout=None, atten=None, trans_order=None):
+              noise=None, var_kind=None, irregular=None, shuffle=True, j_config=None, layout=None, atten=None, trans_order=None,
+              xgrid=None, bath_temps=None):
     """returns a Case with .ds, .sections [(key, [(a, b), ...])], .trans_att, .matching [(hs, ts, rev)], .truth, .var_args"""
     c = Case()
     nx = nx or rng.randint(12, 40)
@@ -81,6 +82,9 @@ def make_case(rng, double=False, nx=None, nt=None, span=None, n_baths=None, n_st
     span = span or rng.choice([10.0, 50.0, 100.0, 400.0, 2000.0, 10000.0])
     irregular = rng.random() < 0.3 if irregular is None else irregular
     x = _grid(rng, nx, span, irregular)
+    if xgrid is not None:
+        x = np.asarray(xgrid, dtype=float)
+        nx, span = len(x), float(x[-1] - x[0])
     n_baths = n_baths or rng.randint(1, 3)
     n_stretch = max(n_baths, n_stretch or rng.randint(n_baths, min(2 * n_baths + 1, 5)))
     nseg = n_stretch + n_match * 2
@@ -119,6 +123,8 @@ def make_case(rng, double=False, nx=None, nt=None, span=None, n_baths=None, n_st
     # --- temperatures
     r = np.random.default_rng(rng.randrange(2**31))
     tbath = {k: 5.0 + 12.0 * j + 3 * r.random(nt) + r.normal(0, 0.5) for j, k in enumerate(sorted(keys))}
+    if bath_temps is not None:
+        tbath = {k: float(bath_temps[int(k[4:])]) + 0.2 * r.random(nt) for k in keys}
     T = 12.0 + 10.0 * r.random((nx, 1)) + 1.5 * r.random((1, nt)) + np.zeros((nx, nt))
     for i, b in bath_of_loc.items():
         kname = f"bath{b}"
@@ -251,6 +257,22 @@ def make_case(rng, double=False, nx=None, nt=None, span=None, n_baths=None, n_st
     c.var_callable = (float(slope), float(offset))
     c.span, c.irregular = span, irregular
     return c
+
+
+def correlated_design_case(rng, nt=1, dT=4.0, var_kind="float"):
+    """a valid but strongly correlated single-ended design: two short calibration baths a few kelvin apart at the far end of a
+    kilometre-scale fibre (x nearly constant inside each bath, so the dalpha column is almost a combination of the gamma and c
+    columns; the normalised normal matrix has a singular-value ratio of 1e-8..1e-9) — well determined, and the reported
+    covariance has to be inv(X'WX) s2 there as on a lab fibre ("equally for metre-scale and kilometre-scale fibres")"""
+    lead = [0.0, 2.0, 4.0, 6.0]
+    far = float(rng.choice([6000.0, 9000.0]))
+    g1 = [far + 4.0 * k for k in range(7)]
+    g2 = [far + 500.0 + 4.0 * k for k in range(7)]
+    tail = [far + 700.0, far + 704.0]
+    x = lead + g1 + g2 + tail
+    layout = dict(ref_blocks=[(4, 10, 0), (11, 17, 1)], match_blocks=[], trans_idx=[])
+    return make_case(rng, double=False, nt=nt, n_baths=2, layout=layout, noise=0.002, var_kind=var_kind, irregular=False, shuffle=False,
+                     xgrid=x, bath_temps=[20.0, 20.0 + dT])
 
 
 def splice_at_last_reference_case(rng, double, noise=None, n_match=1):
